@@ -57,6 +57,8 @@ def run(ctx: Any, prog: Program) -> None:
     ctx.rule('C10.B3', 'rebuild/write order tables are complete and every view has a reader and a writer', floor=45)
     ctx.rule('C10.B4', 'read() and save() agree on the lump header record in both field orders and on the game-lump directory', floor=6)
     ctx.rule('C10.B5', 'compression flag, stored length and decompression are symmetric between save() and read()', floor=6)
+    ctx.rule('C10.B7', 'save() decides lump by lump, in rebuild order, whether a view is parsed (writers parse further views while saving)', floor=2)
+    ctx.rule('C10.B8', 'lump writers do not modify header-level state (map revision, version, lump versions/flags)', floor=20)
     ctx.rule('C10.B6', 'ParsedLump.__get__ caches the parsed value and blanks exactly to_clear', floor=2)
 
     order_node = bsp.global_assign('LUMP_REBUILD_ORDER')
@@ -166,6 +168,41 @@ def run(ctx: Any, prog: Program) -> None:
                     ok = pos[args[0]] < pos[main_of[used]]
                     ctx.check('C10.B2', ok, bsp, n, f'_lmp_write_{v} (rebuild position {pos[args[0]]}) reads self.{used}{via}, whose lump {main_of[used]} is rebuilt at position '
                               f'{pos[main_of[used]]}: a view must be read only by writers that run before its own rebuild', func=f'BSP.{fname}', text=f'{v} writer reads {used}')
+    # ---- B7 --------------------------------------------------------------------------------------------
+    sv0 = ms['save']
+    loops = [n for n in walk_no_nested(sv0) if isinstance(n, ast.For) and any(isinstance(c, ast.Subscript) and dotted(c.value) == 'self._save_funcs' for c in ast.walk(n))]
+    if len(loops) != 1:
+        raise AnalysisError('BSP.save: the rebuild loop calling self._save_funcs[...] was not found')
+    lp = loops[0]
+    ok_iter = dotted(lp.iter) == 'LUMP_REBUILD_ORDER'
+    ctx.check('C10.B7', ok_iter, bsp, lp, f'the rebuild loop iterates `{ast.unparse(lp.iter)[:60]}` instead of LUMP_REBUILD_ORDER itself: a list of parsed views computed before the loop misses the views '
+              'that the writers parse (and thereby blank) while saving', func='BSP.save', text='rebuild loop iterates LUMP_REBUILD_ORDER')
+    var = lp.target.id if isinstance(lp.target, ast.Name) else None
+    live = any(isinstance(c, ast.Call) and dotted(c.func) == 'self._parsed_lumps.pop' and c.args and dotted(c.args[0]) == var for c in ast.walk(lp)) or \
+        any(isinstance(c, ast.Compare) and isinstance(c.ops[0], (ast.In, ast.NotIn)) and dotted(c.comparators[0]) == 'self._parsed_lumps' and dotted(c.left) == var for c in ast.walk(lp))
+    ctx.check('C10.B7', live, bsp, lp, 'inside the loop the parsed-view cache must be consulted for the current lump (pop / membership test), so that views parsed by earlier writers are rebuilt too',
+              func='BSP.save', text='cache consulted per lump')
+    # ---- B8 --------------------------------------------------------------------------------------------
+    HEADER_ATTRS = {'map_revision', 'version', 'game_ver', 'lump_layout', 'filename', 'header_off'}
+    for v, args in views.items():
+        wr = ms['_lmp_write_' + v.lstrip('_')]
+        for fname, fn in [('_lmp_write_' + v, wr)] + helper_closure(wr):
+            bad = None
+            for n in walk_no_nested(fn):
+                tgts = []
+                if isinstance(n, ast.Assign):
+                    tgts = n.targets
+                elif isinstance(n, (ast.AugAssign, ast.AnnAssign)):
+                    tgts = [n.target]
+                for t in tgts:
+                    for el in (t.elts if isinstance(t, (ast.Tuple, ast.List)) else [t]):
+                        if isinstance(el, ast.Attribute) and dotted(el.value) == 'self' and el.attr in HEADER_ATTRS:
+                            bad = (n, f'self.{el.attr}')
+                        if isinstance(el, ast.Attribute) and el.attr in ('version', 'flags', 'is_compressed', 'id') and isinstance(el.value, ast.Subscript) \
+                                and dotted(el.value.value) in ('self.lumps', 'self.game_lumps'):
+                            bad = (n, ast.unparse(el))
+            ctx.check('C10.B8', bad is None, bsp, bad[0] if bad else fn, (f'{fname} assigns {bad[1]}: rebuilding a view that was merely looked at changes the saved header' if bad else 'no header state written'),
+                      func=f'BSP.{fname}', text=f'{fname} leaves header state alone' if bad is None else f'{fname} writes {bad[1]}')
     # ---- B4 --------------------------------------------------------------------------------------------
     rd = ms['read']
     sv = ms['save']
@@ -300,6 +337,8 @@ def run(ctx: Any, prog: Program) -> None:
 
 
 MUTANTS = [
+    {'id': 'save_snapshots_parsed_views', 'file': 'bsp.py', 'find': "        for lump_or_game in LUMP_REBUILD_ORDER:\n            try:\n                data = self._parsed_lumps.pop(lump_or_game)", 'replace': "        for lump_or_game in [x for x in LUMP_REBUILD_ORDER if x in self._parsed_lumps]:\n            try:\n                data = self._parsed_lumps.pop(lump_or_game)", 'expect': 'C10.B7'},
+    {'id': 'ents_writer_sets_revision', 'file': 'bsp.py', 'find': "    def _lmp_write_ents(self, vmf: VMF) -> bytes:\n", 'replace': "    def _lmp_write_ents(self, vmf: VMF) -> bytes:\n        self.map_revision = vmf.map_ver\n", 'expect': 'C10.B8'},
     {'id': 'water_writer_reads_own_view', 'file': 'bsp.py', 'find': "        for info in data:\n            yield self.lump_layout['LEAFWATERDATA'].pack(", 'replace': "        for info in self.water_leaf_info:\n            yield self.lump_layout['LEAFWATERDATA'].pack(", 'expect': 'C10.B2'},
     {'id': 'overlay_fades_not_rebuilt', 'file': 'bsp.py', 'find': "        self.lumps[BSP_LUMPS.OVERLAY_FADES].data = fade_buf.getvalue()\n", 'replace': "", 'expect': 'C10.B1'},
     {'id': 'brushsides_only_when_nonempty', 'file': 'bsp.py', 'find': "        self.lumps[BSP_LUMPS.BRUSHSIDES].data = sides_buf.getvalue()", 'replace': "        if brushes:\n            self.lumps[BSP_LUMPS.BRUSHSIDES].data = sides_buf.getvalue()", 'expect': 'C10.B1'},
